@@ -1663,6 +1663,7 @@ func rebuildImpl(args rebuildArgs, oldHashes map[string]string) (rebuildState, m
 		}
 		timer.End("Write output files")
 	}
+	verif.Event("build.write.done", "cwd", args.absWorkingDir, "errors", log.HasErrors(), "write", args.write)
 
 	// Only return the mangle cache for a successful build
 	if log.HasErrors() {
